@@ -187,10 +187,99 @@ theorem operatorPhase_tok (ops : List Op) (fns : List Bytes) (pre rest : Bytes) 
 structure TableOK (ops : List Op) : Prop where
   ne : SymsNonempty ops
   blank : ∀ c, isScanSpace c = true → startsOp ops c = false
+  /-- the only operator symbol starting with `-` is `-` itself (the one the exponent hack of `Operator.match` hides) -/
+  minus : ∀ o ∈ ops, o.sym.head? = some 45 → o.sym = MINUS
 
-/-- bytes an operand may consist of: printable ASCII that starts no operator symbol -/
+/-- every byte of the operand starts no operator symbol, or it is the `-` of an exponent (`1.2e-2`: preceded, inside
+    the operand, by a digit and `e`); `pre` = the bytes of the operand before the position, reversed -/
+def atomScan (ops : List Op) : Bytes → Bytes → Bool
+  | _, [] => true
+  | pre, c :: t => (!startsOp ops c || (c == 45 && expHack pre)) && atomScan ops (c :: pre) t
+
+/-- bytes an operand may consist of: printable ASCII that starts no operator symbol (except the `-` of an exponent),
+    not ending in `e` -/
 def AtomOK (ops : List Op) (x : Bytes) : Prop :=
-  x ≠ [] ∧ (∀ c ∈ x, 32 < c ∧ c < 128 ∧ startsOp ops c = false) ∧ x.getLast? ≠ some 101
+  x ≠ [] ∧ (∀ c ∈ x, 32 < c ∧ c < 128) ∧ atomScan ops [] x = true ∧ x.getLast? ≠ some 101
+
+theorem atomScan_plain (ops : List Op) (x : Bytes) (h : ∀ c ∈ x, startsOp ops c = false) (pre : Bytes) :
+    atomScan ops pre x = true := by
+  induction x generalizing pre with
+  | nil => rfl
+  | cons c t ih => simp [atomScan, h c (by simp), ih (fun y hy => h y (by simp [hy]))]
+
+/-- an operand without exponent sign: no byte starts an operator symbol -/
+theorem atomOK_plain (ops : List Op) (x : Bytes) (h1 : x ≠ []) (h2 : ∀ c ∈ x, 32 < c ∧ c < 128 ∧ startsOp ops c = false)
+    (h3 : x.getLast? ≠ some 101) : AtomOK ops x :=
+  ⟨h1, fun c hc => ⟨(h2 c hc).1, (h2 c hc).2.1⟩, atomScan_plain ops x (fun c hc => (h2 c hc).2.2) [], h3⟩
+
+theorem atomScan_mem (ops : List Op) (x pre : Bytes) (h : atomScan ops pre x = true) :
+    ∀ c ∈ x, startsOp ops c = false ∨ c = 45 := by
+  induction x generalizing pre with
+  | nil => simp
+  | cons c t ih =>
+    simp only [atomScan, Bool.and_eq_true, Bool.or_eq_true, Bool.not_eq_true', beq_iff_eq] at h
+    intro y hy
+    rcases List.mem_cons.mp hy with e | e
+    · subst e
+      rcases h.1 with h1 | h1
+      · exact Or.inl h1
+      · exact Or.inr h1.1
+    · exact ih _ h.2 y e
+
+theorem atomScan_head (ops : List Op) (c : Nat) (t : Bytes) (h : atomScan ops [] (c :: t) = true) :
+    startsOp ops c = false := by
+  simp only [atomScan, expHack, Bool.and_false, Bool.or_false, Bool.and_eq_true, Bool.not_eq_true'] at h
+  exact h.1
+
+theorem expHack_append (p q : Bytes) (h : expHack p = true) : expHack (p ++ q) = true := by
+  match p, h with
+  | 101 :: d :: r, h => simpa [expHack] using h
+
+/-- the exponent hack: after a digit and `e` no operator matches at a `-` -/
+theorem firstMatch_none_hack (ops : List Op) (hne : SymsNonempty ops)
+    (hM : ∀ o ∈ ops, o.sym.head? = some 45 → o.sym = MINUS) (pre t : Bytes) (h : expHack pre = true) :
+    firstMatch ops pre (45 :: t) = none := by
+  unfold firstMatch
+  rw [List.find?_eq_none]
+  intro o ho hm
+  have hm' : o.matchAt pre (45 :: t) = true := by simpa using hm
+  have hp := matchAt_prefix o pre (45 :: t) hm'
+  have hs := hne o ho
+  cases hsym : o.sym with
+  | nil => exact hs hsym
+  | cons a s =>
+    rw [hsym] at hp
+    simp [List.isPrefixOf] at hp
+    have h45 : o.sym = MINUS := hM o ho (by simp [hsym, hp.1])
+    unfold Op.matchAt at hm'
+    simp [h45, h] at hm'
+
+/-- `nextOperator` passes over the bytes of an operand -/
+theorem nextOperator_skip_atom (ops : List Op) (hne : SymsNonempty ops)
+    (hM : ∀ o ∈ ops, o.sym.head? = some 45 → o.sym = MINUS) (x a : Bytes) (hx : atomScan ops a x = true)
+    (pre r : Bytes) :
+    nextOperator ops (a ++ pre) (x ++ r) =
+      (match nextOperator ops (x.reverse ++ (a ++ pre)) r with
+       | some (s, o, p, q) => some (x ++ s, o, p, q)
+       | none => none) := by
+  induction x generalizing a with
+  | nil => simp; cases nextOperator ops (a ++ pre) r with
+    | none => rfl
+    | some y => obtain ⟨a1, b1, c1, d1⟩ := y; rfl
+  | cons c t ih =>
+    simp only [atomScan, Bool.and_eq_true, Bool.or_eq_true, Bool.not_eq_true', beq_iff_eq] at hx
+    have hfm : firstMatch ops (a ++ pre) (c :: (t ++ r)) = none := by
+      rcases hx.1 with h1 | h1
+      · exact firstMatch_none ops hne _ c _ h1
+      · rw [h1.1]; exact firstMatch_none_hack ops hne hM _ _ (expHack_append a pre h1.2)
+    simp only [List.cons_append, nextOperator, hfm]
+    have := ih (c :: a) hx.2
+    simp only [List.cons_append] at this
+    rw [this]
+    simp only [List.reverse_cons, List.append_assoc, List.singleton_append]
+    cases nextOperator ops (t.reverse ++ c :: (a ++ pre)) r with
+    | none => rfl
+    | some y => obtain ⟨a1, b1, c1, d1⟩ := y; rfl
 
 /-- the byte before the position is not `e` (so the exponent hack cannot apply) -/
 def NoE (pre : Bytes) : Prop := pre.head? ≠ some 101
@@ -260,8 +349,9 @@ theorem scan_atom (ops : List Op) (hT : TableOK ops) (x b2 : Bytes) (hx : AtomOK
       (match nextOperator ops (b2.reverse ++ (x.reverse ++ pre)) r with
        | some (s, o, p, q) => some (x ++ (b2 ++ s), o, p, q)
        | none => none) := by
-  rw [nextOperator_skip ops hT.ne x (fun c hc => (hx.2.1 c hc).2.2),
-    nextOperator_skip ops hT.ne b2 (fun c hc => hT.blank c (hb2 c hc))]
+  have := nextOperator_skip_atom ops hT.ne hT.minus x [] hx.2.2.1 pre (b2 ++ r)
+  simp only [List.nil_append] at this
+  rw [this, nextOperator_skip ops hT.ne b2 (fun c hc => hT.blank c (hb2 c hc))]
   cases nextOperator ops (b2.reverse ++ (x.reverse ++ pre)) r with
   | none => rfl
   | some q => obtain ⟨a, b, c, d⟩ := q; rfl
@@ -271,7 +361,7 @@ theorem loop_opd_end (ops : List Op) (fns : List Bytes) (hT : TableOK ops) (b x 
     (hx : AtomOK ops x) (hb2 : Blank b2) (pre : Bytes) (st : St) (hv : Bool) (un : Option Op) :
     parseLoop ops fns pre (b ++ (x ++ b2)) st hv un = .ok (pushOperand st un x) := by
   rw [parseLoop_blanks ops fns b hb]
-  have hxc : ∀ c ∈ x, 32 < c ∧ c < 128 := fun c hc => ⟨(hx.2.1 c hc).1, (hx.2.1 c hc).2.1⟩
+  have hxc : ∀ c ∈ x, 32 < c ∧ c < 128 := hx.2.1
   have htrim := trimSpace_atom x b2 hx.1 hxc hb2
   have hno : nextOperator ops (b.reverse ++ pre) (x ++ b2) = none := by
     have := scan_atom ops hT x b2 hx hb2 (b.reverse ++ pre) []
@@ -296,7 +386,7 @@ theorem loop_opd_sym (ops : List Op) (fns : List Bytes) (hT : TableOK ops) (b x 
     parseLoop ops fns pre (b ++ (x ++ (b2 ++ (o.sym ++ rest)))) st hv un =
       parseLoop ops fns (o.sym.reverse ++ (b2.reverse ++ (x.reverse ++ (b.reverse ++ pre)))) rest m2.st m2.hv m2.un := by
   rw [parseLoop_blanks ops fns b hb]
-  have hxc : ∀ c ∈ x, 32 < c ∧ c < 128 := fun c hc => ⟨(hx.2.1 c hc).1, (hx.2.1 c hc).2.1⟩
+  have hxc : ∀ c ∈ x, 32 < c ∧ c < 128 := hx.2.1
   have htrim := trimSpace_atom x b2 hx.1 hxc hb2
   have hsne : o.sym ≠ [] := hT.ne o ho
   have hnx : nextOperator ops (b.reverse ++ pre) (x ++ (b2 ++ (o.sym ++ rest))) =
@@ -333,7 +423,7 @@ theorem loop_call (ops : List Op) (fns : List Bytes) (hT : TableOK ops) (lp rp :
       parseLoop ops fns (41 :: (args.reverse ++ 40 :: (b.reverse ++ (f.reverse ++ (b0.reverse ++ pre))))) rest
         (pushCall st un f args) true none := by
   rw [parseLoop_blanks ops fns b0 hb0]
-  have hxc : ∀ c ∈ f, 32 < c ∧ c < 128 := fun c hc => ⟨(hf.2.1 c hc).1, (hf.2.1 c hc).2.1⟩
+  have hxc : ∀ c ∈ f, 32 < c ∧ c < 128 := hf.2.1
   have htrim := trimSpace_atom f b hf.1 hxc hb
   have hnx : nextOperator ops (b0.reverse ++ pre) (f ++ (b ++ (40 :: (args ++ 41 :: rest)))) =
       some (f ++ (b ++ []), lp, b.reverse ++ (f.reverse ++ (b0.reverse ++ pre)), 40 :: (args ++ 41 :: rest)) := by
@@ -484,7 +574,7 @@ theorem parseLoop_render (ops : List Op) (fns : List Bytes) (hL : LexTable ops) 
         subst hm1
         obtain ⟨m2, hstep2, _⟩ := runToks_cons_ok _ m' (.sym o) ts' hrest
         have hpre1 : NoE ((ws k).reverse ++ pre) := noE_rev _ _ hpre (blank_last _ (hws k))
-        have hpre2 : NoE (x.reverse ++ ((ws k).reverse ++ pre)) := noE_rev _ _ hpre1 hx.2.2
+        have hpre2 : NoE (x.reverse ++ ((ws k).reverse ++ pre)) := noE_rev _ _ hpre1 hx.2.2.2
         have hpre3 : NoE ((ws (k + 1)).reverse ++ (x.reverse ++ ((ws k).reverse ++ pre))) :=
           noE_rev _ _ hpre2 (blank_last _ (hws (k + 1)))
         have key := ih (k + 1) _ m' _ hpre2 hlex' hrest
